@@ -44,6 +44,9 @@ def tx_impl(h, name, fields, body, kw):
             return hx(h._ezsp_frame(name, *args))
         if kw == 0:
             return hx(h._ezsp_frame(name, *vals))
+        if kw == 4:
+            a4, _ = tx_args(name, fields, body, 4)
+            return hx(h._ezsp_frame(name, *a4))
         keys = [k for k, _, _ in fields]
         if kw == 1:
             return hx(h._ezsp_frame(name, **dict(zip(keys, vals))))
@@ -133,6 +136,28 @@ def tx_args(name, fields, body, kw):
         st = vals[0]
         return [getattr(st, f.name) for f in st.fields], {}
     keys = [k for k, _, _ in fields]
+    if kw == 4:
+        # arguments that arrive already wrapped in an integer / byte-string type of ANOTHER width than the declared one (a caller
+        # handing on a value it got from somewhere else): the declared type decides the bytes on the wire
+        import bellows.types as t
+
+        out = []
+        for (_, tp, d), v in zip(fields, vals):
+            if d[0] in ("u", "s") and d[0] == "u":
+                n = int(v) & (256 ** d[1] - 1)
+                if d[1] > 1 and n < 256:
+                    out.append(t.uint8_t(n))
+                elif d[1] == 1:
+                    out.append(t.uint16_t(n))
+                elif d[1] < 4:
+                    out.append(t.uint32_t(n))
+                else:
+                    out.append(v)
+            elif d == ("lv", 1):
+                out.append(t.LVBytes32(bytes(v)))
+            else:
+                out.append(v)
+        return out, {}
     if kw == 0:
         return vals, {}
     if kw == 1:
@@ -190,7 +215,7 @@ def run(ctx):
                     h._seq = seq
                     want = hx(ezsplib.spec_header(v, seq, cid) + body)
                     vals = "[" + ",".join(p[0] for p in parts) + "]"
-                    for kw in ((0, 1, 2, 3) if len(txf) >= 2 else (0, 1) if txf and txf[0][0] != "<single>" else (0,)):
+                    for kw in ((0, 1, 2, 3, 4) if len(txf) >= 2 else (0, 1, 4) if txf and txf[0][0] != "<single>" else (0,)):
                         got = tx_impl(h, name, txf, body, kw)
                         if txf and txf[0][0] == "<single>":
                             line = None
@@ -298,7 +323,7 @@ def run(ctx):
     ctx.count("version_command_pairs", n_pairs)
     ctx.cov["rule"] = (f"every (version, command) pair of versions 4..14 ({n_pairs} pairs) x {reps} value tuples per direction (all-zero/empty, maximal, random; optional tail present and absent); "
                        "receive path = real handler __call__ on header + independently encoded payload, decoded values canonicalised by descriptor; transmit path = real _ezsp_frame with positional, keyword, "
-                       "reversed-keyword and mixed argument forms, and the same argument forms through the public call path (await handler.command(name, ...) with a recording gateway: "
+                       "reversed-keyword and mixed argument forms, and positional arguments pre-wrapped in an integer / byte-string type of another width than declared, and the same argument forms through the public call path (await handler.command(name, ...) with a recording gateway: "
                        "the bytes handed to send_data, each handler's own sequence counter running on through many wraps; the NCP's reply under the request's header then completes the call with its values); every case is distinct and non-trivial")
     ctx.exhaustive = True
 
